@@ -117,6 +117,29 @@ func hGenResult(T *sim.Tape, universe int, nsub int) *hResult {
 	return res
 }
 
+// fillResult overwrites r in place the way benchfmt.Reader reuses its one Result: name bytes, configuration
+// value buffers and the measurement slice are recycled.
+func (h *hResult) fillResult(r *benchfmt.Result) *benchfmt.Result {
+	r.Name = append(r.Name[:0], h.name...)
+	r.Iters = 1
+	old := r.Config
+	r.Config = r.Config[:0]
+	for i, kv := range h.cfg {
+		var buf []byte
+		if i < len(old) {
+			buf = old[i].Value[:0]
+		}
+		r.Config = append(r.Config, benchfmt.Config{Key: kv[0], Value: append(buf, kv[1]...), File: !h.internal[kv[0]]})
+	}
+	r.Values = r.Values[:0]
+	for i, u := range h.units {
+		r.Values = append(r.Values, benchfmt.Value{Value: float64(i + 1), Unit: u})
+	}
+	// the Result's key index is private; a fresh struct with the recycled slices keeps it consistent
+	*r = benchfmt.Result{Config: r.Config, Name: r.Name, Iters: r.Iters, Values: r.Values}
+	return r
+}
+
 func (h *hResult) toResult() *benchfmt.Result {
 	r := &benchfmt.Result{Name: benchfmt.Name(h.name), Iters: 1}
 	for _, kv := range h.cfg {
@@ -264,6 +287,7 @@ type hInstance struct {
 	projs   []*hProj // in expression order (not parse order)
 	residue *hProj
 	order   []int
+	scratch *benchfmt.Result // reused in place when the run imitates a Reader stream
 }
 
 func hFieldText(f hField) string {
@@ -341,7 +365,7 @@ func hGenExprs(T *sim.Tape) []hExpr {
 	return exprs
 }
 
-func hNewInstance(r *sim.Run, exprs []hExpr, order []int, resEarly int) *hInstance {
+func hNewInstance(r *sim.Run, exprs []hExpr, order []int, resEarly int, badAt int) *hInstance {
 	inst := &hInstance{parser: new(ProjectionParser), order: order}
 	f, err := NewFilter("*")
 	if err != nil {
@@ -380,6 +404,16 @@ func hNewInstance(r *sim.Run, exprs []hExpr, order []int, resEarly int) *hInstan
 	for oi, i := range order {
 		if oi == residueAt {
 			takeResidue(order[:oi])
+		}
+		if oi == badAt && oi > 0 {
+			// an expression that is rejected (unknown order) after naming keys that earlier, accepted expressions
+			// already project: it must leave what those registered untouched
+			prevE := exprs[order[r.T.Intn(oi, "bad-parse-reuses")]]
+			bad := hFieldText(prevE.fields[0]) + ",goos@bogus"
+			if _, err := inst.parser.Parse(bad, inst.filter); err == nil {
+				r.Fail("parse", "unknown-order-accepted", "Parse(%q) succeeded", bad)
+			}
+			r.Hit("a rejected Parse between accepted ones")
 		}
 		e := exprs[i]
 		hp := newHProj(e)
@@ -775,12 +809,20 @@ func hRun(t *testing.T, r *sim.Run, prop string) {
 			resEarly = T.Intn(len(o)+1, "residue-at")
 			r.Hit("Residue() taken before a later Parse")
 		}
-		insts = append(insts, hNewInstance(r, exprs, o, resEarly))
+		badAt := -1
+		if T.Intn(6, "bad-parse") == 0 {
+			badAt = T.Intn(len(o), "bad-parse-at")
+		}
+		insts = append(insts, hNewInstance(r, exprs, o, resEarly, badAt))
 	}
 	for i, e := range exprs {
 		r.Logf("expr %d: %q unit=%v", i, e.text, e.unit)
 	}
 	r.Logf("parse order %v (+%d other orders)", orders[0], len(orders)-1)
+	reuse := T.Bool("reuse-result-object")
+	if reuse {
+		r.Hit("one Result object reused in place for the whole stream")
+	}
 	nres := 1 + T.Small(0, 59, "nresults")
 	universe, nsub := 1+T.Intn(3, "universe0"), 1+T.Intn(2, "nsub0")
 	// losslessness bookkeeping on the primary instance
@@ -807,6 +849,12 @@ func hRun(t *testing.T, r *sim.Run, prop string) {
 		for ii, inst := range insts {
 			c := &hCheck{r: r, prop: prop, label: fmt.Sprintf("[parse order %v]", inst.order)}
 			res := h.toResult()
+			if reuse {
+				if inst.scratch == nil {
+					inst.scratch = &benchfmt.Result{}
+				}
+				res = h.fillResult(inst.scratch)
+			}
 			ok, _ := inst.filter.Apply(res)
 			if !ok {
 				continue // removed by a fixed value list
